@@ -1,0 +1,16 @@
+//go:build verif
+
+// Contracts checked by /verif/govc (comment-only; compiled only with -tags verif).
+package sha2
+
+// SHA-256 padding (FIPS 180-4, 5.1.1) for the fixed-length Sum: the message, one byte 0x80, the least number of
+// zero bytes that makes the total a multiple of the 64-byte block once the 8-byte length is added, the bit length
+// big-endian. Written from the standard, for every message length.
+//@ contract (*digest).padded
+//@   props C15
+//@   requires d != nil && bytesLen == len(d.in) && bytesLen < 1152921504606846976 && alloc(d.in) != alloc(d)
+//@   nopanic
+//@   ensures @block-multiple len(result) % 64 == 0
+//@   ensures @minimal len(result) >= bytesLen + 9 && len(result) < bytesLen + 9 + 64
+//@   ensures @message forall k int :: 0 <= k && k < bytesLen ==> result[k] == old(d.in[k])
+// (the values of the marker, zero and length bytes are not under contract: byte constants are boxed frontend.Variables)
